@@ -1,7 +1,18 @@
 import TdModel.Model.C35Proto
 import TdModel.Model.C37
+import TdModel.Model.C37Unescape
 open TdModel
 
-/-- The C37 driver replays recorded builder calls through the C35 builder model (`run …`) and
-evaluates the monitor (`holds …`): same protocol as drv_c35. -/
-def main : IO Unit := runDriver Drv35.handle
+/-- The C37 driver replays recorded builder calls through the C35 builder model (`run …`),
+evaluates the monitor (`holds …`) — same protocol as drv_c35 — and runs the `telegramUnescape`
+model (`unesc <hex>` → hex, or `panic`). -/
+def handle (line : String) : String :=
+  match words line with
+  | ["unesc", h] => match ofHex h with
+    | some b => match C37U.telegramUnescape b with
+      | some out => toHex out
+      | none => "panic"
+    | none => "bad-op"
+  | _ => Drv35.handle line
+
+def main : IO Unit := runDriver handle
